@@ -167,7 +167,7 @@ fn flip(path: &Path, offset: u64, mask: u8) -> std::io::Result<()> {
 }
 
 pub async fn run(args: &Args, rep: &mut Reporter) {
-    let histories = args.by_tier(1usize, 6usize);
+    let histories = args.by_tier(1usize, 2usize);
     let steps = args.by_tier(28usize, 60usize);
     let dense = args.thorough();
     let mut rng = Rng::new(args.shard_seed() ^ 0xC16);
